@@ -163,6 +163,9 @@ pub fn props_of(v: &[Prop]) -> Vec<Property<'_>> {
 
 pub fn direct(prop: &str, tier: Tier, caps: &Caps) -> Vec<FamilyReport> {
     match prop {
+        "C02" => crate::d_c05::run("C02", tier, caps),
+        "C03" => crate::d_c05::run("C03", tier, caps),
+        "C05" => crate::d_c05::run("C05", tier, caps),
         "C07" => crate::d_c07::run(tier, caps),
         "C09" => crate::d_c09::run(tier, caps),
         "C10" => crate::d_c10::run(tier, caps),
@@ -176,7 +179,9 @@ pub fn direct(prop: &str, tier: Tier, caps: &Caps) -> Vec<FamilyReport> {
 }
 
 pub fn replay_case(name: &str, case: &Value) -> Option<CaseOut> {
-    if name.starts_with("C07") {
+    if name.ends_with("-long-chains-of-resumed-connections") {
+        crate::d_c05::replay(name, case)
+    } else if name.starts_with("C07") {
         crate::d_c07::replay(name, case)
     } else if name.starts_with("C09") {
         crate::d_c09::replay(name, case)
